@@ -110,8 +110,16 @@ check("C20", "model_checking",
       "client_golang's registry and histogram are trusted as the observation interface; histogram sum within 1 ns per sample",
       "TLA+ state machine vs direct sums (TLC exhaustive), TLC trace validation of gathered registries", "DESIGN.md section 7 (C20)")
 
+check("C19", "model_checking",
+      "Flags.tla gives the documented meaning of each flag as a function of the token structure; TLC enumerates the -rate grammar (183 cases: all units, "
+      "multiples, 0/infinity, malformed shapes) and exports it; every case and random ones are rendered as text and applied through the real flag.Value "
+      "types of package main (also after an earlier -rate flag, with/without -max-workers, printed form parsed back), as are repeated -header flags, "
+      "-max-body spellings, -connect-to, -dns-ttl and -resolvers (dialled); TLC checks every stored value against the specification.",
+      "flag values are observed through the verif-tagged in-process driver; the pacer handed to the attacker is taken to be the stored rate",
+      "TLA+ grammar/meaning enumeration by TLC, exported cases replayed on the real flag parsers, TLC trace validation", "DESIGN.md section 8 (C19)")
+
 UNDER = "check under construction in this round (specification and driver not committed yet)"
-for p in ["C05", "C06", "C15", "C18", "C19"]:
+for p in ["C05", "C06", "C15", "C18"]:
     NA[p] = UNDER
 NA["C16"] = ("arbitrary-byte crash/hang freedom of parsers has no abstract state machine to specify; deciding it means fuzzing, "
              "a different technique (DESIGN.md section 9)")
